@@ -347,7 +347,7 @@ static void _last_fix_and_reset_points(struct iwal *wal, uint8_t *wmm, off_t fsz
         }
         memcpy(&wb, rp, sizeof(wb));
         rp += sizeof(wb);
-        if (wb.len > avail) {
+        if (wb.len > avail - sizeof(wb)) {
           return;
         }
         break;
@@ -373,7 +373,7 @@ static void _last_fix_and_reset_points(struct iwal *wal, uint8_t *wmm, off_t fsz
         }
         memcpy(&wb, rp, sizeof(wb));
         rp += sizeof(wb);
-        if (avail < wb.len) {
+        if (avail - sizeof(wb) < wb.len) {
           return;
         }
         rp += wb.len;
@@ -387,11 +387,17 @@ static void _last_fix_and_reset_points(struct iwal *wal, uint8_t *wmm, off_t fsz
         break;
       }
       case WOP_SAVEPOINT: {
+        if (avail < sizeof(WBSAVEPOINT)) {
+          return;
+        }
         *fpos = (rp - wmm);
         rp += sizeof(WBSAVEPOINT);
         break;
       }
       case WOP_RESET: {
+        if (avail < sizeof(WBRESET)) {
+          return;
+        }
         *rpos = (rp - wmm);
         rp += sizeof(WBRESET);
         break;
@@ -499,7 +505,7 @@ static iwrc _rollforward_exl(struct iwal *wal, IWFS_EXT *extf, int recover_mode)
         }
         memcpy(&wb, rp, sizeof(wb));
         rp += sizeof(wb);
-        if (wb.len > avail) {
+        if (wb.len > avail - sizeof(wb)) {
           _WAL_CORRUPTED("Premature end of WAL (WBSEP)");
         }
         if (ccrc && wb.crc) {
@@ -541,7 +547,7 @@ static iwrc _rollforward_exl(struct iwal *wal, IWFS_EXT *extf, int recover_mode)
         }
         memcpy(&wb, rp, sizeof(wb));
         rp += sizeof(wb);
-        if (avail < wb.len) {
+        if (avail - sizeof(wb) < wb.len) {
           _WAL_CORRUPTED("Premature end of WAL (WBWRITE)");
         }
         if (ccrc && wb.crc) {
